@@ -153,6 +153,32 @@ def gen_feature_program(rng, feature):
         want = {'r%d' % i: {'g': c['g'] if c['g'] is not None else 'hello', 'k': c['h']['k'] if c['h'] is not None else 1}
                 for i, c in enumerate(calls)}
         return {'yaml': '\n'.join(y) + '\n', 'oracle': {}, 'meta': {'feature': feature, 'want': want}}
+    if feature == 'joinsub':
+        # a join (all / one / N) whose BODY is a sub-workflow or an action, triggered by 2-4 parallel branches that complete
+        # in any order (also after the join has already completed) through on-success / on-error / on-complete routes.
+        # Prescribed: the join has ONE task execution whose body ran ONCE (one sub-workflow / action execution).
+        nb = rng.choice([2, 3, 3, 4])
+        kind = rng.choice(['one', 'one', 'all', 2])
+        if kind == 2 and nb < 3:
+            kind = 'one'
+        body_wf = rng.random() < 0.7
+        outs = [rng.choice(['ok', 'ok', 'err']) for _ in range(nb)]
+        # branches that arrive late: for a partial join after it has completed
+        late = set(rng.sample(range(1, nb), rng.choice([0, 1, 1, min(2, nb - 1)])))
+        y = ["version: '2.0'", 'main:', '  tasks:']
+        oracle = {}
+        for i in range(nb):
+            y += ['    b%d:' % i, '      action: verif.act tag="b%d"' % i]
+            if i in late:
+                y.append('      wait-before: 30')       # starts only when everything else has drained (virtual clock)
+            route = rng.choice(['on-complete', 'on-success' if outs[i] == 'ok' else 'on-error'])
+            y += ['      %s: [j]' % route]
+            oracle[('b%d' % i, None, None)] = ('ok', i) if outs[i] == 'ok' else ('err', 'boom')
+        y += ['    j:', '      join: %s' % kind, ('      workflow: sub' if body_wf else '      action: verif.act tag="j"'), '      on-success: [z]',
+              '    z:', '      action: verif.act tag="z"']
+        if body_wf:
+            y += ['sub:', '  tasks:', '    s1:', '      action: verif.act tag="s1"']
+        return {'yaml': '\n'.join(y) + '\n', 'oracle': oracle, 'meta': {'feature': feature, 'join': kind, 'body_wf': body_wf, 'branches': nb, 'late': sorted(late)}}
     if feature == 'nullflow':
         # a value set before a fork, re-published in ONE branch as null / false / 0 / '' / an empty dict or list (values a
         # careless "is it there?" test takes for missing) while the other branch merely inherits the old value; the
@@ -372,6 +398,15 @@ def run_one(d, prog, seed, inject_pause=False, inject_evict=False, pause_rate=0.
                 if was != a['state'] and not any(f['signature'].startswith('action-state-changed-after-completion') for f in fails):
                     fails.append({'property': 'C03', 'signature': 'action-state-changed-after-completion:%s' % meta['feature'],
                                   'what': 'action execution %s %s -> %s after %s' % (k, was, a['state'], label)})
+        if meta['feature'] == 'joinsub':
+            # C04: one task execution of the join, its body started at most once
+            jt = [k for k in v['tasks'] if k.split('/')[-1].split('#')[0] == 'j' and k.count('/') == 1]
+            bodies = [k for k in v['wf'] if '/j#' in k and k.count('/') == 1] if meta['body_wf'] else \
+                     [k for k in v['actions'] if k.split('!')[0] in jt]
+            if (len(jt) > 1 or len(bodies) > 1) and not any(f['signature'].startswith('join-started-twice') for f in fails):
+                fails.append({'property': 'C04', 'signature': 'join-started-twice:%s' % ('sub-workflow' if meta['body_wf'] else 'action'),
+                              'what': 'join j (join: %s) has %d task executions and its body was started %d times after %s: %s' % (
+                                  meta['join'], len(jt), len(bodies), label, sorted(bodies))})
         if meta['feature'] == 'reverse':
             # C01 / C04: a task exists only once everything it requires has succeeded, and at most once
             by_name = collections.defaultdict(list)
